@@ -18,6 +18,9 @@ TRUSTED = [
     'hand-written Model/IslandModel.v (region test = existsb over own pixels) tied by exact correspondence on find_islands(region=..)',
     'astropy.wcs (wcs_pix2world, tabulated over the image by the harness and handed to the model as `inside`), '
     'Region.sky_within / healpy.ang2pix (membership answers are inputs of the model), scipy.ndimage.label',
+    'command line glue AegeanTools/CLI/aegean.py (argument parsing, defaults, option -> keyword mapping, argument order, output '
+    'naming) is not modelled in Coq; it is tied on every run by tools/harness/cli_cases.py: aegean --region command lines (a region that keeps some islands, with and without --negative, and the same image without --region) run in subprocesses and '
+    'the files they write equal, bit for bit (tables apart from uuids), those of the library call that --help and the docstrings promise',
 ]
 ASSUMPTIONS = ['wcs_pix2world(p, origin) is the position of FITS pixel p + 1 - origin (validated on every run)',
                'fitting is a function of the island (box, pixels, mask) only, so identical islands give identical components']
@@ -165,6 +168,9 @@ def run(ctx, model_ok=True):
                         ctx.mismatch('find_islands(region) vs Model.IslandModel.obs_region', {**ic.case_json(case), **meta}, impl=iv, model=mv)
             ctx.oblige(f'correspondence: {len(vals)} (image, wcs, region) cases equal to the model', nbad == 0, f'{nbad} differ')
             ctx.traces = len(vals)
+    # ---- command line tie: the argument glue of AegeanTools/CLI vs the library call that --help promises
+    from harness import cli_cases
+    cli_cases.hook(ctx, cli_cases.aegean_region_cli, 'aegean --region')
 
 
 def _one(rng):
@@ -197,6 +203,9 @@ def replay(ctx, obj):
         for b in obj.get('broken', []):
             print('  ', b.get('what'), str(b.get('detail', b.get('case', '')))[:400])
         return 1
+    if fi.get('kind') == 'cli':
+        from harness import cli_cases
+        return cli_cases.replay_cli(ctx, fi)
     from AegeanTools.regions import Region
     from AegeanTools.wcs_helpers import WCSHelper
     case = ic.case_from_json(fi['case'])
